@@ -202,7 +202,12 @@ CHECKS["C03"] = dict(
          "weight for weight with the Coq model. Every CalibratedLatticeEnsemble (explicit, random, Crystals, rtl_layer; "
          "lattice or KFL members) is extracted from the Keras graph, evaluated as ensemble2_eval in Coq against model(x), "
          "and the hypotheses of the ensemble theorems are decided in Coq on the extracted structure by a boolean check "
-         "with a soundness proof (C03_wiring_check_sound). Open known findings D32, D57.",
+         "with a soundness proof (C03_wiring_check_sound). The initial-value hypotheses of the reachable-feasibility "
+         "theorems are discharged by proof for the initializers the premade builders use (C03_init_feasible_*, "
+         "C03_reachable_feasible_*_from_init; lattice linear / random-monotonic, PWL uniform / equal-heights / output "
+         "calibrator, missing output, categorical with its build-time projection, constant 1/n Linear, KFL), under "
+         "configuration validity and output_initialization inside the bounds (D65 otherwise); fresh weights are "
+         "compared in Coq with the initializer models on every run. Open known findings D32, D57, D65.",
     technique="Coq proof (state-machine invariant + composition of monotone maps) + in-Coq correspondence with premade models under training histories",
     design="7/C03")
 CHECKS["C07"] = dict(
